@@ -34,47 +34,60 @@ def fnum(v):
     return None if v is None or (isinstance(v, float) and math.isnan(v)) else float(v)
 
 
+def tiles_of(case):
+    """a pattern encoded case as [[pattern, repetitions], ...]: `tiles` as given, `rle` = patterns of length one"""
+    if "tiles" in case:
+        return [([v for v in p], int(r)) for p, r in case["tiles"]]
+    return [([v], int(c)) for v, c in case["rle"]]
+
+
+def encoded(case):
+    return "rle" in case or "tiles" in case
+
+
+def runs_of(case):
+    """the (value, count) pairs of a pattern encoded case without its NaNs (what `x[~np.isnan(x)]` leaves, as a
+    multiset): element i of a pattern repeated r times stands for r equal elements"""
+    return [(v, r) for p, r in tiles_of(case) for v in p if v is not None and r > 0]
+
+
 def m_n(case, clean):
-    """the values the binning model was given: the runs of a run-length encoded case, every value otherwise"""
-    return [v for v, _ in case["rle"] if v is not None] if "rle" in case else range(int(clean.size))
+    """the values the binning model was given: the runs of a pattern encoded case, every value otherwise"""
+    return runs_of(case) if encoded(case) else range(int(clean.size))
 
 
 def np_next(v, d):
     return float(np.nextafter(v, math.inf if d > 0 else -math.inf))
 
 
-def run_otsu(x, **kw):
+def run_otsu(x, *args, **kw):
     from pewlib.process.threshold import otsu
 
     with warnings.catch_warnings():
         warnings.simplefilter("ignore")
         with np.errstate(all="ignore"):
             try:
-                return float(otsu(x, **kw))
+                return float(otsu(x, *args, **kw))
             except Exception as e:
                 return {"raises": type(e).__name__, "msg": str(e)[:200]}
 
 
 def expand(case):
-    """the flat value sequence of a case: explicit `data`, or run-length encoded `rle` = [[value, count], ...]
-    (large arrays: the abstract case stays a few runs long; NaN = null as in `data`)"""
-    if "rle" in case:
-        vals = [math.nan if v is None else v for v, _ in case["rle"]]
-        cnts = [int(c) for _, c in case["rle"]]
-        if case.get("dtype") == "int":
-            return np.repeat(np.array(vals, dtype=np.int64), cnts)
-        return np.repeat(np.array(vals, dtype=np.float64), cnts)
+    """the flat value sequence of a case: explicit `data`, or pattern encoded: `tiles` = [[pattern, repetitions], ...]
+    (each pattern written out `repetitions` times, one tile after the other; `rle` = [[value, count], ...] is the
+    special case of patterns of length one).  Large arrays: the abstract case stays a few hundred numbers long;
+    NaN = null as in `data`"""
+    dt = np.int64 if case.get("dtype") == "int" else np.float64
+    if encoded(case):
+        parts = [np.tile(np.array([math.nan if v is None else v for v in p], dtype=dt), r) for p, r in tiles_of(case)]
+        return np.concatenate(parts) if parts else np.zeros(0, dtype=dt)
     if case.get("dtype") == "int":
         return np.array(case["data"], dtype=np.int64)
     return np.array([math.nan if v is None else v for v in case["data"]], dtype=np.float64)
 
 
 def build(case):
-    if "rle" in case:
-        return expand(case).reshape(case["shape"])
-    if case.get("dtype") == "int":
-        return np.array(case["data"], dtype=np.int64).reshape(case["shape"])
-    return np.array([math.nan if v is None else v for v in case["data"]], dtype=np.float64).reshape(case["shape"])
+    return expand(case).reshape(case["shape"])
 
 
 class C15(Prop):
@@ -275,6 +288,106 @@ class C15(Prop):
         k = rng.choice([1, 2, 3, 10, -1, -7, 20, -20, -60, 100]) if dtype == "float" else rng.choice([1, 2, 5])
         return {"kind": "extreme-cut-" + side, "dtype": dtype, "shape": shape, "rle": rle, "scale_exp": k}
 
+    # shapes with more than 2^21 elements (1-D, 2-D, 3-D; just above 2^21, 3*2^20, 2^22; 1500 x 1500)
+    LARGE = [[1500, 1500], [1449, 1449], [2 ** 21 + 1], [2 ** 21 + 2], [2048, 1025], [1774, 1774], [128, 128, 129],
+             [3 * 2 ** 20 + 5], [2, 1100000], [2048, 2048], [2 ** 22 + 1]]
+    LARGER = [[2049, 2049], [2047, 2049], [5 * 2 ** 20 + 3], [6 * 2 ** 20 + 1], [7 * 2 ** 20 + 2], [2896, 2897],
+              [2 ** 23], [2 ** 23 + 7], [256, 256, 128], [3000, 2500]]
+
+    def gen_large(self, rng, tier):
+        """more than 2^21 elements (thorough: up to 2^23 + 7), pattern encoded: the abstract case is a list of tiles
+        (pattern, repetitions).  The value of an element depends on its flat index: alternating by parity, periodic
+        with period 2..16 / 840 with the largest (smallest) value at one residue only, a few bright pixels at flat
+        indices of one residue class on a flat background, a 255..1024-value bimodal sample tiled, or large sorted
+        blocks with the extreme values in a short tail.  Any computation that does not look at every element (every
+        k-th element, a leading block, whole blocks only) sees another minimum, maximum or histogram."""
+        shape = list(rng.choice(self.LARGE + (self.LARGER if tier == "thorough" else [])))
+        n = 1
+        for d in shape:
+            n *= d
+        kind = rng.choice(["parity", "periodic", "periodic", "sparse", "sparse", "bimodal-tile", "bimodal-tile", "blocks"])
+        dtype = "int" if rng.random() < 0.2 else "float"
+        if dtype == "int":
+            lo, span = rng.choice([0, -1024, 7, 1000]), rng.choice([255, 1024, 4095, 65535])
+            val = lambda q: int(round(lo + span * q))
+        else:
+            lo, span = rng.choice([(0.0, 1.0), (0.0, 255.0), (-1.0, 2.0), (3.0, 10.0), (1000.0, 64.0), (-0.7, 1.9), (5e-7, 3e-6)])
+            val = lambda q: float(lo + span * q)
+
+        def fill(pattern, total):
+            """tiles that write `pattern` again and again up to exactly `total` elements"""
+            p = len(pattern)
+            ts = [[pattern, total // p]] if total >= p else []
+            if total % p:
+                ts.append([pattern[:total % p], 1])
+            return ts
+        if kind == "parity":
+            a, b = val(0.0), val(rng.choice([1.0, 0.5, 0.01]))
+            pat = [a, b] if rng.random() < 0.6 else [b, a]
+            tiles = fill(pat, n)
+        elif kind == "periodic":
+            p = rng.choice([2, 3, 3, 4, 5, 6, 7, 8, 12, 16, 840])
+            dark = [val(rng.uniform(0.02, 0.3)) for _ in range(3)]
+            bright = [val(rng.uniform(0.6, 0.95)) for _ in range(3)]
+            frac = rng.choice([0.5, 0.3, 0.1])
+            pat = [rng.choice(bright) if rng.random() < frac else rng.choice(dark) for _ in range(p)]
+            r = rng.randrange(1, p)
+            pat[r] = val(1.0)                               # the maximum: only at flat indices = r (mod p), r != 0
+            r2 = rng.choice([i for i in range(p) if i != r])
+            pat[r2] = val(0.0)                              # the minimum: only at another residue (may be 0)
+            tiles = fill(pat, n)
+        elif kind == "sparse":
+            a, b = val(0.0), val(1.0)
+            if rng.random() < 0.3:
+                a, b = b, a                                 # dark pixels on a bright background
+            k = rng.choice([1, 1, 2, 5, 25])
+            p = rng.choice([2, 2, 2, 3, 4, 6, 8, 840])
+            r = rng.randrange(1, p) if rng.random() < 0.85 else 0
+            where = rng.choice(["anywhere", "anywhere", "last", "first"])
+            m = (n - 1 - r) // p                            # residue class: indices r, r + p, ..., r + m p
+            js = {m} if where == "last" else {0} if where == "first" else set()
+            while len(js) < min(k, m + 1):
+                js.add(rng.randint(0, m))
+            tiles, at = [], 0
+            for j in sorted(js):
+                i = r + j * p
+                if i > at:
+                    tiles.append([[a], i - at])
+                tiles.append([[b], 1])
+                at = i + 1
+            if n > at:
+                tiles.append([[a], n - at])
+        elif kind == "bimodal-tile":
+            L = rng.choice([255, 256, 840, 1000, 1024])
+            m2, s1, s2, pp = rng.uniform(4, 12), rng.uniform(0.3, 1.5), rng.uniform(0.3, 1.5), rng.choice([0.5, 0.3, 0.8, 0.05])
+            raw = [rng.gauss(0, s1) if rng.random() < pp else rng.gauss(m2, s2) for _ in range(L)]
+            a0, b0 = min(raw), max(raw)
+            pat = [val((v - a0) / (b0 - a0)) for v in raw]
+            tiles = fill(pat, n)
+        else:  # blocks: a few levels in long sorted runs, the extreme values in a short tail (or head)
+            levels = sorted(rng.uniform(0.05, 0.95) for _ in range(rng.choice([1, 2, 3, 5])))
+            tail = rng.choice([1, 3, 1000, 65535, n % 65536 or 7])
+            body = n - 2 * tail
+            cuts = sorted(rng.sample(range(1, body), len(levels) - 1))
+            runs = [[[val(q)], c] for q, c in zip(levels, [y - x for x, y in zip([0] + cuts, cuts + [body])])]
+            ends = [[[val(0.0)], tail], [[val(1.0)], tail]]
+            tiles = runs + ends if rng.random() < 0.6 else ends + runs
+        if dtype == "float" and rng.random() < 0.35:
+            # NaNs: a run of odd or even length in front (after removal every flat index has moved), inside, or at the end
+            c = rng.choice([1, 1, 2, 3, 1001, n // 100])
+            at = rng.choice([0, 0, len(tiles) // 2, len(tiles)])
+            # keep the element count: take the NaNs out of the longest tile
+            j = max(range(len(tiles)), key=lambda i: len(tiles[i][0]) * tiles[i][1])
+            pj, rj = tiles[j]
+            take = -(-c // len(pj))
+            if rj > take + 1:
+                tiles[j] = [pj, rj - take]
+                c = take * len(pj)
+                tiles.insert(at, [[None], c])
+        tiles = [[list(pp_), int(r_)] for pp_, r_ in tiles if r_ > 0 and pp_]
+        k = rng.choice([1, 2, 3, 10, -1, -7, 20, -20, -60, 100]) if dtype == "float" else rng.choice([1, 2, 5])
+        return {"kind": "large-" + kind, "dtype": dtype, "shape": shape, "tiles": tiles, "scale_exp": k}
+
     def gen_stub(self, rng):
         """a hand-made histogram (handed to otsu through a stubbed np.histogram): empty bins at one or both ends, so that
         a class of some cuts is empty and the float mechanism produces 0/0"""
@@ -300,6 +413,8 @@ class C15(Prop):
         r = rng.random()
         if r < 0.06:
             return self.gen_extreme(rng, tier)
+        if r < 0.085:
+            return self.gen_large(rng, tier)
         if r > 0.96:
             return self.gen_stub(rng)
         if r > 0.94:   # constant arrays (outside the property; the model's NaN path is recorded)
@@ -375,6 +490,21 @@ class C15(Prop):
                "rle": [[0.0, 1], [254.5 / 256, h - 1], [1.0, h]], "scale_exp": 1}
         yield {"kind": "extreme-cut-first", "dtype": "float", "shape": [2 ** 20 + 1],
                "rle": [[3.5, h - 7], [2.0, h + 7], [258.0, 1]], "scale_exp": -3}
+        # more than 2^21 elements, value by flat index (pattern encoded).  1500 x 1500: flat background, five bright
+        # pixels at odd flat indices (two-valued)
+        pos, tiles, at = [101, 70001, 1234567, 2000001, 2249999], [], 0
+        for i in pos:
+            tiles += [[[0.0], i - at], [[1.0], 1]]
+            at = i + 1
+        yield {"kind": "large-sparse", "dtype": "float", "shape": [1500, 1500], "tiles": tiles, "scale_exp": 1}
+        # 2^21 + 2 elements alternating by index parity (two-valued, balanced)
+        yield {"kind": "large-parity", "dtype": "float", "shape": [2 ** 21 + 2], "tiles": [[[3.0, 7.5], 2 ** 20 + 1]], "scale_exp": 3}
+        # 1774 x 1774 (> 3 * 2^20), period 3: the maximum at indices = 1 (mod 3), the minimum at indices = 2 (mod 3)
+        yield {"kind": "large-periodic", "dtype": "int", "shape": [1774, 1774],
+               "tiles": [[[40, 255, 0], 1774 * 1774 // 3], [[40], 1]], "scale_exp": 1}
+        # 2048 x 2048 + 1 elements, period 4 with a NaN at indices = 0 (mod 4): removal requested
+        yield {"kind": "large-periodic", "dtype": "float", "shape": [2 ** 22 + 1],
+               "tiles": [[[None, 0.25, 10.0, 0.5], 2 ** 20], [[9.5], 1]], "scale_exp": -2}
 
     # ------------------------------------------------------------------ evaluation
     def evaluate(self, case, ctx):
@@ -387,10 +517,23 @@ class C15(Prop):
         has_nan = clean.size != flat.size
         feats = {f"kind:{case['kind']}", f"ndim{len(case['shape'])}", "dtype:" + ("int64" if isint else "float64"),
                  "size:" + ("2" if clean.size == 2 else "3" if clean.size == 3 else "<=50" if clean.size <= 50 else ">50")}
-        distinct = np.unique(clean)
+        # the distinct values: of a pattern encoded case they are read off the patterns (its value sequence is large)
+        distinct = (np.array(sorted({float(v) for v, _ in runs_of(case)}), dtype=np.float64) if encoded(case)
+                    else np.unique(clean))
         if distinct.size < 2:
             return self.eval_outside(case, x, flat, clean, ctx)
         lo, hi = float(clean.min()), float(clean.max())
+        if clean.size > 2 ** 21:
+            feats.add("size:>2^21" if clean.size <= 2 ** 22 else "size:>2^22")
+            feats.add("large:" + ("%d-D" % len(case["shape"])))
+            # what a computation that looks at every s-th element only would lose
+            for s_ in (2, 3, 4, 8):
+                sub = clean[::s_]
+                if float(sub.min()) != lo or float(sub.max()) != hi:
+                    feats.add("large:every-%d-th-element-misses-min-or-max" % s_)
+                elif encoded(case) and len({float(v) for v, _ in runs_of(case)}) <= LIMIT and \
+                        np.unique(sub).size < distinct.size:
+                    feats.add("large:every-%d-th-element-misses-a-value" % s_)
         hist = edges = None
         try:
             hist, edges = np.histogram(clean, bins=BINS)
@@ -532,10 +675,12 @@ class C15(Prop):
         if isint and not np.all(np.abs(flat) <= 2 ** 53):
             return True, {"binning-model-skipped:int-beyond-2^53"}, None
         feats = set()
-        if "rle" in case:
-            # run-length encoded (large) arrays: the model bins every distinct value once, the counts are weighted by
-            # the run lengths; NaN runs are dropped here as `x[~np.isnan(x)]` drops them
-            runs = [(float(v), int(c)) for v, c in case["rle"] if v is not None]
+        if encoded(case) and len(runs_of(case)) > LIMIT:
+            return True, {"binning-model-skipped:large"}, None
+        if encoded(case):
+            # pattern encoded (large) arrays: the model bins the value of every pattern position once, the counts are
+            # weighted by the repetitions; NaNs are dropped here as `x[~np.isnan(x)]` drops them
+            runs = [(float(v), int(c)) for v, c in runs_of(case)]
             drep = ctx.driver.call("c15.data", bits=[str(core.tok(v) & MASK64) for v, _ in runs],
                                    data=[orat(v) for v, _ in runs], counts=[c for _, c in runs], bins=BINS)
             feats.add("binning:run-length-weighted")
@@ -641,6 +786,40 @@ class C15(Prop):
                 for i, (v, c) in enumerate(rle):
                     if c > 1:
                         yield mk(rle[:i] + [[v, c // 2]] + rle[i + 1:])
+            if case["scale_exp"] not in (1,):
+                yield {**case, "scale_exp": 1}
+            return
+        if "tiles" in case:
+            tiles = [[list(p), int(r)] for p, r in case["tiles"]]
+            total = lambda ts: sum(len(p) * r for p, r in ts)
+            if len(case["shape"]) > 1:
+                yield {**case, "shape": [total(tiles)]}
+                return
+
+            def mk(ts):
+                out = []
+                for p, r in ts:
+                    if r > 0 and p:
+                        if out and out[-1][0] == p:
+                            out[-1][1] += r          # neighbouring tiles of one pattern are one tile
+                        else:
+                            out.append([p, r])
+                return {**case, "shape": [total(out)], "tiles": out}
+            for i in range(len(tiles)):
+                rest = tiles[:i] + tiles[i + 1:]
+                if total(rest) >= 2:
+                    yield mk(rest)
+            if any(r > 1 for _, r in tiles):
+                yield mk([[p, max(1, r // 2)] for p, r in tiles])
+                for i, (p, r) in enumerate(tiles):
+                    if r > 1:
+                        yield mk(tiles[:i] + [[p, r // 2]] + tiles[i + 1:])
+                        if r <= 8:
+                            yield mk(tiles[:i] + [[p, r - 1]] + tiles[i + 1:])
+            for i, (p, r) in enumerate(tiles):
+                if len(p) > 1:
+                    yield mk(tiles[:i] + [[p[:len(p) // 2], r]] + tiles[i + 1:])
+                    yield mk(tiles[:i] + [[p[len(p) // 2:], r]] + tiles[i + 1:])
             if case["scale_exp"] not in (1,):
                 yield {**case, "scale_exp": 1}
             return
